@@ -332,7 +332,11 @@ def check(ctx, rep):
                 no = arith.norm(util.map_term(strip(prga_ret if prga_ret is not None else se.ret), table_len), env)
                 rep.check(nj == j1, "prga", fn, "j-update", "j' = j +8 S[i']", "j update is %s, expected %s" % (arith.show(nj), arith.show(j1)), se.body.loc())
                 rep.check(nS == S1, "prga", fn, "swap", "S' = swap(S, i', j')", "state update is %s" % arith.show(nS)[:200], se.body.loc())
-                rep.check(no == out, "prga", fn, "output", "out = S'[S'[i'] +8 S'[j']]", "output byte is %s" % arith.show(no)[:300], se.body.loc())
+                def sr(x):
+                    # S'[i'] and S'[j'] may be spelled by the values loaded before the exchange
+                    y = arith.swap_reads(x)
+                    return ("idx", y[1], arith.swap_reads(y[2])) if y[0] == "idx" else y
+                rep.check(no == out or sr(no) == sr(out), "prga", fn, "output", "out = S'[S'[i'] +8 S'[j']]", "output byte is %s" % arith.show(no)[:300], se.body.loc())
                 rep.check(t == self_ and set(upd) == {fi, fj, si[0]}, "prga", fn, "frame", "writes exactly i, j, S", "PRGA writes other state", se.body.loc())
     # ---------------- keystream application loop
     fn = "rc4::Rc4::apply_keystream"
